@@ -2,16 +2,7 @@
 //      fragments lack (M9, TRUSTED).  Needs fragments core + vec + string.  Do not list together with `merkle_ext`
 //      (both define `IntoIterator for Vec<T>`). ----
 
-/// `impl Borrow<T>` arguments of the SDK (`Vec::contains(&self, item: impl Borrow<T>)`): a value or a reference to it
-pub trait VxBorrow<T>: Sized {
-    spec fn bv(&self) -> T;
-}
-impl<T> VxBorrow<T> for T {
-    open spec fn bv(&self) -> T { *self }
-}
-impl<'a, T> VxBorrow<T> for &'a T {
-    open spec fn bv(&self) -> T { **self }
-}
+// (`VxBorrow` - the SDK's `impl Borrow<T>` arguments - is defined in model/vec.rs)
 
 impl<T> Vec<T> {
     /// `Vec::contains` with the SDK's real argument type `impl Borrow<T>` (the `vec` fragment only has the `&T` form);
